@@ -249,11 +249,14 @@ func (h *HopByHopHeader) MarshalBinary() (data []byte, err error) {
 }
 
 func (h *HopByHopHeader) UnmarshalBinary(data []byte) error {
+	if len(data) < 2 {
+		return errors.New("The []byte is too short to unmarshal a full HopByHopHeader message.")
+	}
 	n := 0
 	h.NextHeader = data[n]
 	n += 1
 	h.HEL = data[n]
-	if len(data) < 8*int(h.HEL+1) {
+	if len(data) < int(h.Len()) {
 		return errors.New("The []byte is too short to unmarshal a full HopByHopHeader message.")
 	}
 	n += 1
